@@ -425,6 +425,70 @@ def rule_short_order(rep, rule="C-order"):
     rep.floor(rule, 5)
 
 
+# ------------------------------------------------------------------------------------ W-doc
+
+
+def generic_dict(shape):
+    """The prepared dictionary of a generic textgrid.  shape: list of (kind, k)."""
+    from ..absint import label_var
+
+    tiers = []
+    for n, (kind, k) in enumerate(shape, 1):
+        ents = []
+        for i in range(1, k + 1):
+            if kind == "interval":
+                ents.append(Tup([Lin.var("T%ds%d" % (n, i)), Lin.var("T%de%d" % (n, i)), label_var("T%dl%d" % (n, i))], "Interval"))
+            else:
+                ents.append(Tup([Lin.var("T%dt%d" % (n, i)), label_var("T%dl%d" % (n, i))], "Point"))
+        t = DictVal()
+        t.d = {"class": "IntervalTier" if kind == "interval" else "TextTier", "name": label_var("name%d" % n),
+               "xmin": Lin.var("T%dm" % n), "xmax": Lin.var("T%dM" % n), "entries": Lst(ents)}
+        tiers.append(t)
+    d = DictVal()
+    d.d = {"xmin": Lin.var("m"), "xmax": Lin.var("M"), "tiers": Lst(tiers)}
+    return d
+
+
+def rule_written_document(rep, tier, rule="W-doc"):
+    """Both text emitters, interpreted on generic textgrids, produce a document from which an independent reader
+    written from Praat's file specification recovers exactly the dictionary they were given."""
+    from ..absint import Str
+    from . import docmodel as dm
+
+    idx = common.ctx()
+    shapes = [[("interval", 2), ("point", 2)], [("point", 1), ("interval", 1), ("interval", 0)], []]
+    if tier == "thorough":
+        shapes += [[("interval", 3), ("interval", 0), ("point", 0), ("point", 3)], [("point", 0)], [("interval", 1)] * 4]
+    st = State([("0", Lin.num(0))], [0])
+    ov = dict(default_overrides())
+    # numToStr is decided separately (C-exact); here the numeral it writes is an atom that denotes its argument
+    ov["my_math.numToStr"] = lambda I, args, kwargs: Str("num", (I.num(args[0]),))
+    for spec in (LONG_W, SHORT_W):
+        fn = idx.get(spec)
+        rep.functions.add(fn.qual)
+        for shape in shapes:
+            what = "generic textgrid [%s]" % ", ".join("%s x%d" % sk for sk in shape)
+            I = Interp(idx, st, overrides=ov)
+            d = generic_dict(shape)
+            try:
+                doc = I.call_function(fn, [d], {})
+                toks = dm.tokenize(dm.flatten(doc))
+                back = dm.read_textgrid(toks)
+                diff = dm.compare(I, back, d)
+            except dm.DocError as e:
+                rep.refuted(rule, fn.short, what, "the written text is not a well-formed TextGrid file for every label/time: %s" % e, loc=fn.loc)
+                continue
+            except PyRaise as e:
+                rep.refuted(rule, fn.short, what, "the emitter raises %s on a generic textgrid" % e.name, loc=fn.loc)
+                continue
+            except Undecided as e:
+                rep.undecided(rule, fn.short, what, str(e))
+                continue
+            rep.check(diff is None, rule, fn.short, what, ok="an independent reader of Praat's text format recovers every name, class, span, size, time and label, in order",
+                      bad="an independent reader of Praat's text format recovers something else: %s" % diff, loc=fn.loc)
+    rep.floor(rule, 6)
+
+
 # ------------------------------------------------------------------------------------ C-blocks
 
 
